@@ -869,6 +869,7 @@ func (p *Parser) parseNameString() ([]byte, parseResult) {
 		err         error
 		startOffset = p.r.Offset()
 		endOffset   uint32
+		nullLen     uint32
 	)
 
 	// Skip over RootChar ('\') and Caret ('^') prefixes
@@ -891,8 +892,14 @@ func (p *Parser) parseNameString() ([]byte, parseResult) {
 
 	switch next {
 	case 0x00: // NullName (null string or a name terminator)
-		startOffset = p.r.Offset()
-		// return empty string
+		if p.r.Offset()-1 == startOffset {
+			// return empty string
+			startOffset = p.r.Offset()
+		} else {
+			// The NullName terminates a root/parent prefix (e.g. Scope(\));
+			// keep the prefix and drop the terminator.
+			nullLen = 1
+		}
 	case 0x2e: // DualNamePath := DualNamePrefix NameSeg NameSeg
 		endOffset = p.r.Offset() + uint32(amlNameLen*2)
 		if endOffset > p.r.pkgEnd {
@@ -926,7 +933,7 @@ func (p *Parser) parseNameString() ([]byte, parseResult) {
 		p.r.SetOffset(endOffset)
 	}
 
-	str.Len = int(p.r.Offset() - startOffset)
+	str.Len = int(p.r.Offset() - startOffset - nullLen)
 	str.Cap = str.Len
 	return *(*[]byte)(unsafe.Pointer(&str)), res
 }
